@@ -90,6 +90,16 @@ def hdrBuild (name : String) (args : List String) : Option (List Nat × String) 
   | "Expect", [a] => some (writeExpect (a == "1"), s!"exp {if a == "1" then 1 else 0}")
   | "Content-Type", [a] => do
     let v ← fromHex a
+    if v.head? == some 64 then
+      -- '@': built through the API from the parsed value's type, subtype, suffix and quality (known table entries only)
+      match Mime.parse (v.drop 1) with
+      | .ok m =>
+        match m.sub, m.suffix with
+        | .known i, .none => pure (Mime.render m.top i none m.q [], "ct " ++ mediaCanon { m with params := [] })
+        | .known i, .known j => pure (Mime.render m.top i (some j) m.q [], "ct " ++ mediaCanon { m with params := [] })
+        | _, _ => none
+      | _ => none
+    else
     match Mime.parse v with
     | .ok m => pure (v, "ct " ++ mediaCanon m)
     | _ => none
